@@ -95,10 +95,57 @@ pub(crate) mod proofs {
 
     fn buffer_of<const N: usize>(q: &AtomicMove<u32, N>) -> [u32; N] { unsafe { *raw_buffer(q) } }
 
+    // adversarial environment for the overshoot-and-recede path (C16 / C02): at this producer's FIRST receding compare-exchange on the watched
+    // `enqueuer_tail`, another producer has reserved a slot after ours (so the recede fails) and a consumer has received the oldest event
+    // (so there is room now)
+    pub(crate) static mut WATCHED_RING: usize = 0;
+    pub(crate) static mut CAS_ATTEMPTS: u32 = 0;
+    pub(crate) fn colliding_compare_exchange_weak(a: &AtomicU32, cur: u32, new: u32, _s: std::sync::atomic::Ordering, _f: std::sync::atomic::Ordering) -> Result<u32, u32> {
+        unsafe {
+            if WATCHED_RING != 0 {
+                let q = &*(WATCHED_RING as *const AtomicMove<u32, 2>);     // the counters sit at the same offsets for every BUFFER_SIZE (Box'ed buffer)
+                if a as *const AtomicU32 == &*q.enqueuer_tail as *const AtomicU32 {
+                    CAS_ATTEMPTS += 1;
+                    if CAS_ATTEMPTS == 1 {
+                        let et = &*q.enqueuer_tail as *const AtomicU32 as *mut u32; *et = (*et).wrapping_add(1);      // another producer reserved after us
+                        let h = &*q.head as *const AtomicU32 as *mut u32; *h = (*h).wrapping_add(1);                  // a consumer received & released the oldest event
+                        let dh = &*q.dequeuer_head as *const AtomicU32 as *mut u32; *dh = (*dh).wrapping_add(1);
+                    }
+                }
+            }
+            let cell = a as *const AtomicU32 as *mut u32;
+            if *cell == cur { *cell = new; Ok(cur) } else { Err(*cell) }
+        }
+    }
+
     // @group ring_proofs
     macro_rules! ring_proofs { ($($modname:ident: $n:expr, $unw:expr;)*) => { $( mod $modname {
         use super::*;
         const N: usize = $n;
+
+        // @props C16 C02 spin=violation
+        #[kani::proof] #[kani::unwind($unw)] #[kani::stub(std::hint::spin_loop, noop)]
+        #[kani::stub(std::sync::atomic::Atomic::<u32>::compare_exchange_weak, colliding_compare_exchange_weak)]
+        fn a_send_colliding_at_the_boundary_is_accepted_once_there_is_room() {
+            // 'retrying succeeds as soon as a consumer has made room' / 'rejected only if at some instant of the call all slots were taken':
+            // the queue is exactly full when we reserve; while we try to recede, another producer reserves behind us (our recede fails) and a
+            // consumer frees a slot. The fullness test must be re-evaluated on the CURRENT head: we hold a valid slot now and are accepted --
+            // judging from a stale head keeps us receding forever (unwinding assertion = spinning on a condition nobody will make true)
+            let q = AtomicMove::<u32, N>::new();
+            let origin: u32 = kani::any();
+            set_counters(&q, RingState { origin, len: N as u32, resv: 0 });
+            unsafe { *raw_buffer(&q) = kani::any(); WATCHED_RING = &q as *const AtomicMove<u32, N> as usize; CAS_ATTEMPTS = 0; }
+            let got = q.leak_slot_internal(|| false);
+            match got {
+                Some((_slot, id, len_before)) => {
+                    assert!(id == origin.wrapping_add(N as u32),             "collision: we keep the slot id we reserved");
+                    assert!(len_before == N as u32 - 1,                      "collision: the length is judged against the CURRENT head (one slot was freed)");
+                }
+                None => assert!(false,                                       "collision: there is room by the time the fullness test is repeated -- the send must not be rejected"),
+            }
+            kani::cover!(unsafe { CAS_ATTEMPTS } >= 1, "the receding compare-exchange was attempted (and lost against the other producer)");
+            kani::cover!(true, "end of harness reachable (vacuity guard)");
+        }
 
         // ---- C01/C02/C15/C16: publish_movable -----------------------------------------------------------
         // @props C01 C02 C15 C16
